@@ -104,6 +104,27 @@ def run_case(pos_i, path, cash, reward, script):
             v += Fr(contract.multiplier) * (-B)
         return v
 
+    def valuation_check(led, where):
+        """the broker's valuation against the ledger priced at the exchange's CURRENT quotes: an insolvent account must be reported
+        as such (negative raw value, end-of-episode signal) however the decision that found it insolvent was refused"""
+        book = env.exchange[contract]
+        pos, B = led.pos[contract.symbol]
+        want = led.D - led.K + Fr(contract.multiplier) * ((pos * Fr(book.bid_price if pos > 0 else book.ask_price) if pos != 0 else 0) - B)
+        try:
+            raw = env.broker.net_liquidation_value(False)
+        except Exception as ex:
+            out.append(("%s: valuation with raise_if_broke=False raised %r" % (where, ex), None))
+            return
+        if abs(float(raw) - float(want)) > 1e-9 * max(1.0, abs(float(want))):
+            out.append(("%s: valuation returns %r but the account (recorded trades at current quotes) is worth %s" % (where, raw, float(want)), None))
+        elif want <= 0:
+            try:
+                v = env.broker.net_liquidation_value()
+                out.append(("%s: net_liquidation_value() returned %r for an account worth %s instead of signalling the end of the episode"
+                            % (where, v, float(want)), None))
+            except EndOfEpisodeError:
+                pass
+
     env.reset()
     led = fresh_ledger()
     k = 0              # steps taken in this episode
@@ -168,6 +189,7 @@ def run_case(pos_i, path, cash, reward, script):
                             % (float(nlv_dec), exc), "step-raises-at-ruin:" + sig))
                 ruin_raised = True
             ended = True
+            valuation_check(led, "after the refused decision %d" % k)
             continue
         # solvent at decision time: the decision must be executed normally
         if exc is not None and len(env.broker.track_record) == ntr:
@@ -210,6 +232,7 @@ def run_case(pos_i, path, cash, reward, script):
         if ended and exc is None:
             pass
     # broker-level valuation contract at the final state
+    valuation_check(led, "final state")
     try:
         raw = env.broker.net_liquidation_value(False)
         try:
